@@ -9,6 +9,7 @@ sys.path.insert(0, os.path.dirname(os.path.abspath(__file__)))
 from props import c01 as base  # noqa: E402
 
 ASSUMPTIONS = base.ASSUMPTIONS + [
+    'restart reasons other than `signaled` (abort = thread::interrupt of a task suspended in a semaphore / cv / mutex wait) are exercised on the real runtime only (scenario after_interrupted_wait: ledger + quiescence watchdog + "marked active, inside no worker\'s coroutine" watch; its state-word chains go through the acceptor, which compares (state, tag)); the Coq model keeps state_ex constant, which is what restore_state documents ("ignore the state_ex while compare-exchanging")',
     'a wake-up is "issued after registration" when the waker pops the waiter entry under the primitive\'s internal lock (SIssue); the guarantee is for the suspension that ends the phase in which the task registered',
     'that helper tasks and re-queued tasks are eventually scheduled is fairness of the runtime (stuck-state theorem only)',
 ]
@@ -16,6 +17,10 @@ ASSUMPTIONS = base.ASSUMPTIONS + [
 
 def run(ctx):
     r = base.run_modes(ctx, 'C02', ['c02'], 'ExtractC02.v', 'drv_c02.ml', 'c02_wake.cpp', 'c02_wake')
+    if not ctx.replay and r.dist.get('interrupted_in_wait', 0) == 0 and not r.hits:
+        r.hits.append(base.Hit('tie', 'C02:scenario:after_interrupted_wait',
+                               'no task was interrupted inside a wait (restart reason abort) in this run: the scenario '
+                               'after_interrupted_wait of harness/c01_trace.cpp did not run', {}))
     if not ctx.replay and not any('reproduced=1' in n for n in r.notes):
         r.notes.append('phase-scoped wake-up witness was not reproduced in this run (timing dependent; not an alarm)')
     return r
